@@ -23,7 +23,8 @@ States == Target \cup {Base(t, h) : t \in Target, h \in {"fresh", "noC", "noH", 
 SameChannel(a, b) == a.dir = b.dir /\ a.pol = b.pol /\ a.mag = b.mag /\ a.upfront = b.upfront
 HistNext(h1, h2) == \/ h1 = "fresh" /\ h2 \in {"noC", "noH"}
                     \/ h1 \in {"noC", "noH"} /\ h2 = "init"
-                    \/ h1 \in {"init", "upd"} /\ h2 = "upd"
+                    \/ h1 = "init" /\ h2 \in {"upd", "updp"}
+                    \/ h1 \in {"upd", "updp"} /\ h2 = "upd"
 
 Init == /\ s \in {t \in States : t.hist = "fresh"}
         /\ closed = FALSE
